@@ -38,6 +38,20 @@ ASSUME \A k \in CraftKs : /\ DecodeBlock(SubSeq(Crafted(60, k), 1, 13 + k)).ok  
                           /\ ~DecodeBlock(Crafted(60, k)).ok
 ASSUME \A k \in CraftKs : PrintT(<<"CV", ToJson([k |-> k, block |-> Crafted(60, k)])>>)
 
+(* blocks whose checksum has a zero byte (sum of header and data below 256, or a multiple of 256): altering the other   *)
+(* checksum byte to 0 gives the checksum 0x0000 -- "no checksum" for a decoder that tests it for truth.  Every value of  *)
+(* every checksum byte, and the usual corruptions of the other bytes, are rejected by the reference; the blocks are     *)
+(* printed for the real decoder (ZV).                                                                                *)
+ZHead(sy) == [r |-> FALSE, dev |-> 0, w |-> FALSE, s |-> 1, f |-> 1, e |-> FALSE, blk |-> 0, sys |-> sy]
+ZBlocks == {EncodeBlock(BlockHdr(ZHead(<<0, 0, 0, 1>>), 0, 1), <<>>),            \* sum 0x0084
+            EncodeBlock(BlockHdr(ZHead(<<0, 0, 0, 0>>), 1, 1), <<7>>),           \* sum 0x008A
+            EncodeBlock(BlockHdr(ZHead(<<0, 0, 0, 0>>), 1, 1), <<125>>),         \* sum 0x0100
+            EncodeBlock(BlockHdr(ZHead(<<255, 255, 255, 255>>), 2, 1), <<127, 2>>)}     \* sum 0x0500
+ChecksumValues(b) == UNION {{[b EXCEPT ![i] = x] : x \in 0..255} : i \in {Len(b) - 1, Len(b)}} \ {b}
+ASSUME \A b \in ZBlocks : DecodeBlock(b).ok /\ (b[Len(b) - 1] = 0 \/ b[Len(b)] = 0)
+ASSUME \A b \in ZBlocks : \A c \in ChecksumValues(b) \cup Corruptions(b) : ~DecodeBlock(c).ok
+ASSUME \A b \in ZBlocks : PrintT(<<"ZV", ToJson([block |-> b])>>)
+
 ASSUME \A h \in Heads : PrintT(<<"HV", ToJson([h |-> h, block |-> Split(h, Pattern(5))[1]])>>)
 ASSUME \A n \in Lens : PrintT(<<"LV", ToJson([n |-> n, blocks |-> Split(H0, Pattern(n))])>>)
 ASSUME \A k \in {3, 100, 32766, 32767} : \A d \in {0, 1, 2} :
